@@ -5,14 +5,18 @@ Proof half (lean/Alpaqa/Props/C02.lean): the a-posteriori bound `kkt_error_bound
 decidable certificate checkers `isExactKKT` / `isSCCert`, `descent_finite_termination`.
 
 Exploration half (this file): every shipped solver stack — ALM over PANOC / ZeroFPR x {LBFGS,
-StructuredLBFGS, Anderson, Noop}, PANTR x NewtonTR, FISTA, and each inner solver stand-alone on the
+StructuredLBFGS, Anderson, Noop, StructuredNewton, ConvexNewton (m = 0 only: it rejects general
+constraints by design)}, PANTR x NewtonTR, FISTA, and each inner solver stand-alone on the
 box-constrained / unconstrained special case — is run through harness/c02_run.cpp with DEFAULT
-parameters (only tolerances and iteration limits are set; the problem provides Hessian-vector
-products, which NewtonTR's default configuration requires) on seeded strongly convex QPs
+parameters (only tolerances and iteration limits are set; the problem provides Hessian-vector products
+and dense Hessians, which the Newton-type providers require) on seeded strongly convex QPs
 
     minimise ½ xᵀQx + cᵀx   s.t.  Clb ≤ x ≤ Cub,  Dlb ≤ A x ≤ Dub,     Q_s = μ I + BᵀB (dyadic B)
 
-with a strictly feasible point.  Required: status `Converged`, and the *proved* inequality
+with a strictly feasible point, including a "zero-gradient start" class (x⁰ the exact unconstrained
+minimiser, ∇ψ(x⁰) = 0 in binary64, x⁰ outside the box) that every stack receives in every tier.
+Required: status `Converged` (an exception escaping a solver is a violation), reported ε ≤ tolerance,
+and the *proved* inequality
 
     μ ‖x − x*‖² ≤ ε ‖x − x*‖₁ + δ ‖y − y*‖₁
 
@@ -24,10 +28,15 @@ is *certified* by the Lean-verified checker (`drv_c02`, op `kkt`, core `Rat`) be
 strong-convexity constant μ is certified by the same call (`isSCCert` on the factor B).
 
 Findings on the unchanged tree (known-findings.json, keys `C02:stepsize-collapse:*`,
-`C02:first-order-iteration-budget:*`): about 1 % of the runs do not return Converged; every one of them
-is recognised by an exact-arithmetic impossibility argument (final step size more than 2¹⁰ below
-1/L_ref) resp., for FISTA under ALM, by the budget really having been spent in failed inner solves at
-the solution.  Any other non-convergence, and every bound violation, exits 1.
+`C02:rounding-floor-stall:zerofpr`, `C02:first-order-iteration-budget:fista`): 0.5–1 % of the runs do not
+return Converged because the requested tolerance lies below the rounding floor of the function-value
+acceptance tests.  A non-converged run is attributed to them only if it ended NoProgress / MaxIter with
+the requested tolerance ≤ 4·ε_floor and the iterate at the certified x* to 16·ε_floor/μ (ε_floor from
+the problem data and x* alone); the attributed runs are counted per stack in the evidence and CAPPED
+(thorough: 8 % of a first-order stack's runs, 2 % of any other stack's; quick: 3 per stack, 12 in total)
+— above the cap the check fails.  Any other non-convergence, every exception, and every bound violation
+exits 1.  Required coverage (every stack run, in both modes where applicable, and on a zero-gradient
+start) is enforced: a class that was never exercised breaks the tie.
 """
 import math
 import os
@@ -42,14 +51,61 @@ import c01
 from common import f2h, h2f
 
 INF = float('inf')
-STACKS = c01.STACKS
+# the ten stacks of the first build (own list: checks/c01.py's STACKS belongs to another property) …
+STACKS = ['panoc-lbfgs', 'panoc-slbfgs', 'panoc-anderson', 'panoc-noop', 'zerofpr-lbfgs',
+          'zerofpr-slbfgs', 'zerofpr-anderson', 'zerofpr-noop', 'pantr-newtontr', 'fista']
+# … plus the two Newton-type PANOC direction providers (audit round 2: "each direction provider").
+# StructuredNewtonDirection needs a dense eval_hess_ψ (any m); ConvexNewtonDirection needs a dense
+# eval_hess_L and rejects m > 0 by design (`initialize` throws "does not support general
+# constraints"), so it is only generated for m = 0 (stand-alone, and ALM on a box-constrained problem).
+NEWTON_ANY_M = ['panoc-snewton', 'zerofpr-snewton']
+NEWTON_M0 = ['panoc-cnewton', 'zerofpr-cnewton']
+ALL_STACKS = STACKS + NEWTON_ANY_M + NEWTON_M0
+
+
+def applicable_stacks(m):
+    return STACKS + NEWTON_ANY_M + (NEWTON_M0 if m == 0 else [])
+
 COND_CAP = 1000
 # generous limits (library defaults: 100 outer / 100 (PANOC, ZeroFPR, PANTR) resp. 1000 (FISTA) inner
 # iterations; the largest outer count observed on a converging run is ≈ 40): see `limits()`
 ALM_ITER = 100
 FIRST_ORDER = ('panoc-noop', 'zerofpr-noop', 'fista')
 QN_LIMIT = 50000
-G = {'cert': {}, 'bound_ops': [], 'stats': {}, 'lean_calls': 0}
+G = {'cert': {}, 'bound_ops': [], 'stats': {}, 'lean_calls': 0, 'per_stack': {}, 'absorbed_ops': {}}
+
+# Known-finding absorption (see the non-Converged branch of `_monitor` and `absorb`).
+# The recorded finding is: the acceptance tests of the inner solvers (quadratic upper bound for the
+# step size, FBE line search) compare differences of ψ-values; below the *rounding floor*
+#       ε_floor := sqrt(u · F* · L_f),   u = 2⁻⁵³,  F* = ½ Σ|Q_s,ij x*_i x*_j| + Σ|c_i x*_i| (≥ 1),
+#                                         L_f = μ + tr BᵀB  (all from the problem data and the certified x*)
+# those differences (≈ ε²/L) are smaller than the evaluation error of ψ (≈ u·F*), so a requested
+# tolerance below the floor cannot be reached reliably.  Measured on 15 344 runs of the unchanged tree
+# (seeds 1–3 thorough, /repo 02b663b30): every one of the 116 non-converged runs has tol ≤ 0.72·ε_floor,
+# and every non-FISTA one ends with μ·|x − x*|∞ ≤ 3.5·ε_floor.
+FLOOR_U = 2.0 ** -53
+ABSORB_TOL_FACTOR = 4.0     # absorbed only if requested tol ≤ 4·ε_floor           (measured max 0.72)
+ABSORB_DIST_FACTOR = 16.0   # … and μ·|x − x*|∞ ≤ 16·ε_floor                       (measured max 3.5)
+ABSORB_DIST_FISTA = 5e-2    # FISTA: after the collapse the momentum term carries the iterate away again;
+                            # |x − x*|∞ ≤ 5e-2·(1 + |x*|∞)                         (measured max 9.2e-3)
+# Caps on the absorbed share per stack (thorough, ≥ 200 runs): measured maxima per seed are 3.75 % for the
+# stacks without curvature information (panoc-noop, zerofpr-noop, fista) and 0.75 % for all others.
+CAP_FRACTION_FIRST_ORDER = 0.08
+CAP_FRACTION = 0.02
+CAP_MIN_RUNS = 200
+CAP_QUICK_PER_STACK = 3    # quick: absolute counts (a stack has 10–25 runs; measured max 1)
+CAP_QUICK_TOTAL = 12       # (≈ 200 runs; measured 0–6: one hard instance is run on all 12–14 stacks)
+
+
+def pstack(stack):
+    return G['per_stack'].setdefault(stack, {'runs': 0, 'converged': 0, 'zerograd_runs': 0, 'modes': {},
+                                             'absorbed': {}, 'violations': 0})
+
+
+def absorb(stack, key, op_line):
+    e = pstack(stack)
+    e['absorbed'][key] = e['absorbed'].get(key, 0) + 1
+    G['absorbed_ops'].setdefault(stack, []).append(op_line)
 
 
 def build_harness():
@@ -300,13 +356,63 @@ def gen_instance(rng, *, inner=False, n=None, m=None):
                 fam=fam + ('-bigmult' if (planted and big) else ''))
 
 
+def gen_zerograd_instance(rng, *, inner=False):
+    """Zero-gradient start (audit round 2): x⁰ = u is the exact unconstrained minimiser (u = 0 with
+    c = 0, or a dyadic u with c = −Q_s u), y⁰ = 0, every row contains A u (so ŷ(x⁰) = 0 and
+    ∇ψ(x⁰) = 0 *exactly* in binary64), but the box does not contain u: the solver has to leave a
+    stationary point of ψ that is infeasible.  Quantities scaled by ‖∇ψ(x⁰)‖ (PANTR's automatic
+    initial trust radius, Lipschitz estimates, relative tolerances) are 0 here."""
+    n = rng.choice([1, 2, 2, 3, 4, 6, 8, 12])
+    m = 0 if inner else rng.choice([0, 1, 2, 3, 5])
+    mu, B, Q, Qs = gen_Q(rng, n)
+    origin = rng.random() < 0.5
+    u = [Fr(0)] * n if origin else [Fr(rng.randint(-8, 8), 4) for _ in range(n)]
+    c = [-dot(Qs[i], u) for i in range(n)]
+    w = lambda: Fr(rng.choice([1, 2, 4, 8]), 4)
+    Clb, Cub, xf = [-INF] * n, [INF] * n, [None] * n
+    out = set(range(n)) if rng.random() < 0.4 else set(rng.sample(range(n), rng.randint(1, n)))
+    for i in range(n):
+        if i in out:                          # [lo, hi] excludes u_i
+            side, gap, half = rng.choice([-1, 1]), w(), w()
+            lo = u[i] + gap if side > 0 else u[i] - gap - 2 * half
+            hi = lo + 2 * half
+            xf[i] = lo + half
+            far_finite = rng.random() < 0.6
+            if side > 0 or far_finite:
+                Clb[i] = exact_float(lo)
+            if side < 0 or far_finite:
+                Cub[i] = exact_float(hi)
+        else:
+            xf[i] = u[i] + Fr(rng.choice([-2, 0, 2]), 4)
+            if rng.random() < 0.6:
+                if rng.random() < 0.7:
+                    Clb[i] = exact_float(min(u[i], xf[i]) - w())
+                if rng.random() < 0.7:
+                    Cub[i] = exact_float(max(u[i], xf[i]) + w())
+    A = [gen_row(rng, n) for _ in range(m)]
+    Dlb, Dub = [], []
+    for j in range(m):
+        su, sf = dot(A[j], u), dot(A[j], xf)
+        lo, hi = min(su, sf), max(su, sf)
+        r = rng.random()
+        # A u ∈ [Dlb, Dub] (on the boundary in some cases), A xf strictly inside
+        Dlb.append(-INF if r < 0.3 else exact_float(lo if (lo == su and su != sf and r < 0.5) else lo - w()))
+        r = rng.random()
+        Dub.append(INF if r < 0.3 else exact_float(hi if (hi == su and su != sf and r < 0.5) else hi + w()))
+    return dict(n=n, m=m, Q=[exact_float(a) for r in Q for a in r], c=[exact_float(a) for a in c],
+                A=[exact_float(a) for r in A for a in r], Clb=Clb, Cub=Cub, Dlb=Dlb, Dub=Dub,
+                xf=[exact_float(a) for a in xf], mu=mu, Bk=len(B), B=[exact_float(a) for r in B for a in r],
+                x0=[exact_float(a) for a in u], y0=[0.0] * m,
+                fam='zerograd-origin' if origin else 'zerograd-min')
+
+
 def limits(stack):
     """Generous inner iteration limits (the only non-default parameters besides the tolerances and the
     Hessian-product capability of the problem).  Quasi-Newton / trust-region stacks: 50 000 (500 x the
     default; they need a few hundred).  First-order stacks without curvature information (plain
     proximal gradient `*-noop`, FISTA): 1 000 000 — their iteration count is proportional to the
     condition number of the augmented Lagrangian (≤ 10³ · (1 + penalty·‖A‖²/λmax))."""
-    return 1000000 if stack in FIRST_ORDER else QN_LIMIT
+    return 1000000 if stack in FIRST_ORDER else QN_LIMIT      # Newton-type providers: as quasi-Newton
 
 
 def instance_ops(p, pid, stacks, mode, tol, dtol):
@@ -330,17 +436,23 @@ def instance_ops(p, pid, stacks, mode, tol, dtol):
 def gen_ops_factory(tier):
     def gen_ops(rng, n_inst):
         ops = []
-        ctr = [0, 0]
-        per = 10 if tier == 'thorough' else 3
+        ctr = {}
+        per = None if tier == 'thorough' else 3
         for k in range(n_inst):
             inner = (k % 10) >= 7
-            p = gen_instance(rng, inner=inner)
+            zerograd = (k % 10) in (3, 8)            # 2 of 10 instances: zero-gradient start
+            p = gen_zerograd_instance(rng, inner=inner) if zerograd else gen_instance(rng, inner=inner)
             tol = rng.choice([1e-4, 1e-6, 1e-8]); dtol = rng.choice([1e-4, 1e-6, 1e-8])
             if p['fam'].endswith('-bigmult'):
                 dtol = 1e-8
-            w = 1 if inner else 0
-            stacks = [STACKS[(ctr[w] + t) % len(STACKS)] for t in range(per)]
-            ctr[w] += per
+            appl = applicable_stacks(p['m'])
+            if per is None or zerograd:              # zero-gradient starts: every stack, in every tier
+                stacks = appl
+            else:
+                w = (inner, len(appl))
+                c0 = ctr.get(w, 0)
+                stacks = [appl[(c0 + t) % len(appl)] for t in range(per)]
+                ctr[w] = c0 + per
             pid = f'{rng.getrandbits(48):012x}'
             ops += instance_ops(p, pid, stacks, 'inner' if inner else 'alm', tol, dtol)
         return ops
@@ -621,6 +733,11 @@ def certificate(op, xd, yd):
                     res['error'] = f'Lean certificate checker rejected (x*, y*): {verdict}'
                 else:
                     res['xs'], res['ys'], res['L'] = xs, ys, L
+                    Fstar = max(1.0, float(sum(abs(qp.Qs[i][j] * xs[i] * xs[j]) for i in range(qp.n)
+                                               for j in range(qp.n)) / 2
+                                           + sum(abs(qp.c[i] * xs[i]) for i in range(qp.n))))
+                    res['L0'] = float(qp.mu + sum(a * a for row in qp.B for a in row))
+                    res['floor'] = math.sqrt(FLOOR_U * Fstar * res['L0'])
                     # classification of the active set at x* (coverage)
                     nact = ndeg = 0
                     g = qp.grad(xs)
@@ -653,11 +770,26 @@ def certificate(op, xd, yd):
 # ------------------------------------------------------------------ monitor
 
 def monitor(op_line, out_line, st):
+    m = _monitor(op_line, out_line, st)
+    if isinstance(m, str):                       # a violation (known findings come back as (msg, key))
+        pstack(S.Op.parse(op_line)['stack'])['violations'] += 1
+    return m
+
+
+def _monitor(op_line, out_line, st):
     op = S.Op.parse(op_line)
     stack, mode = op['stack'], op.get('mode', 'alm')
     tag = f'[{stack}/{mode} n={op["n"]} m={op["m"]} {op.get("fam", "")}]'
+    ps = pstack(stack)
+    ps['runs'] += 1
+    ps['modes'][mode] = ps['modes'].get(mode, 0) + 1
+    if op.get('fam', '').startswith('zerograd'):
+        ps['zerograd_runs'] += 1
     if not out_line.startswith('A '):
-        return f'{tag} harness: {out_line[:160]}'
+        # an exception escaping a solver (or a crash) where the property promises `Converged`
+        stat('runs'); stat('status_exception')
+        return (f'{tag} the solver threw / crashed instead of returning a status on a well-posed strongly '
+                f'convex QP (tol={op.flt("tol"):g}): {out_line[:200]}')
     r = parse_out(out_line)
     stat('runs'); stat(f'status_{r["status"]}')
     x, y = r['x'], r['y']
@@ -680,28 +812,52 @@ def monitor(op_line, out_line, st):
                f'eps={r["eps"]:.3g} delta={r["delta"]:.3g} tol={tol:g} dtol={dtol:g} '
                f'limits: alm {ALM_ITER}, inner {limits(stack)}; |x-x*|_inf={dist:.3g} '
                f'final_gamma={r.get("gamma", float("nan")):.3g} penalty={r.get("norm_penalty", 0):.3g}')
-        # Rounding-induced step-size collapse (finding, see known-findings.json): in exact arithmetic
-        # the quadratic-upper-bound test cannot fail once L ≥ L_ψ, so the backtracking never takes γ
-        # below 0.95/(2 L_ψ); L_ψ ≤ L_ref := (μ + tr BᵀB) + Σ_max ‖A‖_F².  A final γ more than 2¹⁰
-        # below 1/L_ref therefore proves ≥ 9 spurious (rounding) failures of that test.
-        L_ref = float(qp.mu + sum(a * a for row in qp.B for a in row))
+        # ---- recorded findings (known-findings.json, `C02:*`): stalls AT the rounding floor only.
+        # Independent of the code under test: x* (certified), ε_floor (problem data), the requested
+        # tolerance.  From the solver: status, and the final step size as evidence of the mechanism
+        # (in exact arithmetic the quadratic-upper-bound test cannot fail once L ≥ L_ψ, so the backtracking
+        # never takes γ below 0.95/(2 L_ψ), L_ψ ≤ L_ref := L_f + Σ_max ‖A‖_F²; γ·L_ref < 2⁻¹⁰ proves ≥ 9
+        # spurious failures).  The reported ε is NOT used: with a collapsed γ it is meaningless (p/γ), e.g.
+        # ε = 3.0 with |x − x*|∞ = 1e-16 (zerofpr-anderson, one coordinate 1 ulp off its bound).
+        # Everything else — a stall away from x*, at a tolerance above the floor, MaxTime, NotFinite, … —
+        # is a violation; absorbed runs are counted per stack and capped (`extra_stage`).
+        L0, floor = cert['L0'], cert['floor']
+        L_ref = L0
         if mode == 'alm' and qp.m:
             L_ref += r.get('norm_penalty', 0.0) * math.sqrt(qp.m) * float(sum(a * a for row in qp.A for a in row))
         g = r.get('gamma', float('nan'))
-        if r['status'] in ('NoProgress', 'MaxIter', 'MaxTime') and g == g and 0 < g * L_ref < 2.0 ** -10:
-            stat('known_stepsize_collapse')
-            return (msg + f'  [step size collapsed: gamma*L_ref = {g * L_ref:.3g} < 2^-10]',
-                    f'C02:stepsize-collapse:{stack.split("-")[0]}')
-        # FISTA under ALM (finding, see known-findings.json): once its step size has dropped, inner solves
-        # end MaxIter, ALM inflates the penalty (so L_ref grows and the criterion above is masked) and the
-        # 100 x 1e6 budget is exhausted.  Recognised narrowly: the budget was really spent inside failed
-        # inner solves and the iterate is at the solution to 1e-3.
-        if (stack == 'fista' and r['status'] == 'MaxIter' and r['inner_iters'] >= limits(stack)
-                and (mode == 'inner' or r['inner_fail'] >= 1) and dist <= 1e-3):
-            stat('known_first_order_budget')
-            return (msg + '  [FISTA exhausted its iteration budget with a collapsed step size / inflated penalty]',
-                    f'C02:first-order-iteration-budget:{stack.split("-")[0]}')
+        xs_inf = max([abs(float(a)) for a in xs] + [0.0])
+        solver = stack.split('-')[0]
+        tol_below_floor = tol <= ABSORB_TOL_FACTOR * floor
+        at_floor = float(qp.mu) * dist <= ABSORB_DIST_FACTOR * floor
+        if solver == 'fista':
+            at_floor = at_floor or dist <= ABSORB_DIST_FISTA * (1.0 + xs_inf)
+        collapsed = g == g and 0 < g * L_ref < 2.0 ** -10
+        msg += (f' eps_floor={floor:.3g} tol/floor={tol / floor:.3g} mu*dist/floor={float(qp.mu) * dist / floor:.3g}'
+                f' gamma*L_ref={g * L_ref:.3g}')
+        if r['status'] in ('NoProgress', 'MaxIter') and tol_below_floor and at_floor:
+            key = None
+            if collapsed:
+                stat('known_stepsize_collapse')
+                key = f'C02:stepsize-collapse:{solver}'
+                why = 'step size collapsed at the rounding floor'
+            elif (solver == 'fista' and mode == 'alm' and r['inner_iters'] >= limits(stack) and r['inner_fail'] >= 1
+                  and g == g and 0 < g * L0 < 2.0 ** -10):
+                # FISTA under ALM: after the collapse inner solves end MaxIter, ALM inflates the penalty (so
+                # L_ref grows and masks the criterion above) and the 100 x 1e6 budget is exhausted
+                stat('known_first_order_budget')
+                key = 'C02:first-order-iteration-budget:fista'
+                why = 'FISTA exhausted its iteration budget with a collapsed step size / inflated penalty'
+            else:
+                # healthy step size, iterate at x* to the floor, residual hovering at ≈ ε_floor: the FBE line
+                # search accepts steps on rounding noise (τ = 1 every iteration), a random walk at the floor
+                stat('known_floor_stall')
+                key = f'C02:rounding-floor-stall:{solver}'
+                why = 'stall at the rounding floor with a healthy step size'
+            absorb(stack, key, op_line)
+            return (msg + f'  [{why}]', key)
         return msg
+    ps['converged'] += 1
     if any(not math.isfinite(a) for a in x + y):
         return f'{tag} Converged with non-finite x / y'
     X, Y = [Fr(a) for a in x], [Fr(a) for a in y]
@@ -739,7 +895,13 @@ def monitor(op_line, out_line, st):
     # `kkt_error_bound` holds for every ε ≥ ‖r‖∞, δ ≥ ‖e‖∞, so this is the sharp form of the property's
     # inequality (it is attained with equality on some instances) — a returned point that is not the
     # one the residuals were computed for breaks it.
-    if math.isfinite(r['eps']) and math.isfinite(r['delta']) and r['eps'] <= tol and (mode != 'alm' or r['delta'] <= dtol):
+    # Converged ⇒ reported ε ≤ tolerance (and δ ≤ dual tolerance under ALM, m > 0): that is what the status
+    # is documented to mean (C06); without it the "requested tolerances" form above says nothing about the
+    # returned point, so it is reported here rather than skipped.
+    if not (r['eps'] <= tol) or (mode == 'alm' and qp.m and not (r['delta'] <= dtol)):
+        return (f'{tag} Converged but the reported residuals exceed the requested tolerances: '
+                f'eps={r["eps"]!r} (tol={tol:g}) delta={r["delta"]!r} (dtol={dtol:g})')
+    if True:   # (kept as a block: the sharp form below is evaluated for every Converged run)
         eps_r = Fr(r['eps']) + Fr(marg_s)
         delta_r = (Fr(r['delta']) + Fr(1e-12 * gs)) if (qp.m and mode == 'alm') else Fr(0)
         rhs_r = eps_r * d1 + delta_r * e1
@@ -785,10 +947,63 @@ def extra_stage(rep, broken, exe, tier):
     rep.cov['c02']['stacks'] = {k: {'converged': v[0], 'mean_inner_iters': round(v[1] / max(v[0], 1), 1),
                                     'max_inner_iters': v[2]} for k, v in sorted(s.get('stacks', {}).items())}
     rep.cov['traces_validated_against_impl'] = s.get('bound_checked', 0)
+    # ---- per-stack record, required coverage, cap on absorbed known findings
+    per = G['per_stack']
+    rep.cov['c02']['per_stack'] = {
+        k: {'runs': v['runs'], 'converged': v['converged'], 'violations': v['violations'],
+            'zerograd_runs': v['zerograd_runs'], 'modes': v['modes'], 'absorbed_known_findings': v['absorbed'],
+            'absorbed_fraction': round(sum(v['absorbed'].values()) / max(v['runs'], 1), 4)}
+        for k, v in sorted(per.items())}
+    rep.cov['c02']['stacks_not_generated'] = {
+        'panoc-cnewton / zerofpr-cnewton with m > 0': 'ConvexNewtonDirection::initialize throws invalid_argument '
+        '("does not support general constraints") by design; generated for m = 0 only'}
+    missing = []
+    for st in ALL_STACKS:
+        v = per.get(st, {'runs': 0, 'zerograd_runs': 0, 'modes': {}})
+        if v['runs'] == 0:
+            missing.append(f'{st}: never run')
+            continue
+        if v['zerograd_runs'] == 0:
+            missing.append(f'{st}: no zero-gradient start')
+        for md in ('alm', 'inner'):
+            if v['modes'].get(md, 0) == 0 and (tier == 'thorough' or md == 'inner' or st not in NEWTON_M0):
+                missing.append(f'{st}: mode {md} never run')
+    if missing:
+        broken.append('required coverage not reached (generator / harness): ' + '; '.join(missing[:8]))
+    total_abs = 0
+    for st, v in sorted(per.items()):
+        na = sum(v['absorbed'].values())
+        total_abs += na
+        if tier == 'thorough':
+            frac = CAP_FRACTION_FIRST_ORDER if st in FIRST_ORDER else CAP_FRACTION
+            over = v['runs'] >= CAP_MIN_RUNS and na > frac * v['runs']
+            cap_txt = f'{frac:.0%} of {v["runs"]} runs'
+        else:
+            over = na > CAP_QUICK_PER_STACK
+            cap_txt = f'{CAP_QUICK_PER_STACK} runs (quick tier, absolute)'
+        if over:
+            rep.violation(f'[{st}] {na} of {v["runs"]} runs did not converge and were attributed to the recorded '
+                          f'step-size findings {v["absorbed"]} — more than the cap of {cap_txt} measured on the '
+                          f'unchanged tree: the stall rate has regressed (not covered by the known finding)',
+                          {'stack': st, 'ops': G['absorbed_ops'].get(st, [])[:6]}, True)
+    if tier != 'thorough' and total_abs > CAP_QUICK_TOTAL:
+        rep.violation(f'{total_abs} of {s.get("runs", 0)} runs attributed to the recorded step-size findings — more than '
+                      f'the cap of {CAP_QUICK_TOTAL} (quick tier): the stall rate has regressed',
+                      {'ops': [o for v in G['absorbed_ops'].values() for o in v][:8]}, True)
+    rep.cov['c02']['absorbed_total'] = total_abs
+    rep.cov['c02']['absorb_caps'] = {'thorough_per_stack_fraction': CAP_FRACTION,
+                                     'thorough_per_stack_fraction_first_order': CAP_FRACTION_FIRST_ORDER,
+                                     'tol_factor': ABSORB_TOL_FACTOR, 'dist_factor': ABSORB_DIST_FACTOR,
+                                     'fista_rel_dist': ABSORB_DIST_FISTA, 'min_runs': CAP_MIN_RUNS,
+                                     'quick_per_stack': CAP_QUICK_PER_STACK, 'quick_total': CAP_QUICK_TOTAL}
     rep.note('C02 coverage: ' + ', '.join(f'{k}={v}' for k, v in sorted(s.items()) if k != 'stacks'))
     if tier == 'thorough' or os.environ.get('C02_VERBOSE'):
         for k, v in rep.cov['c02']['stacks'].items():
             rep.note(f'  {k}: {v}')
+    for k, v in rep.cov['c02']['per_stack'].items():
+        if v['absorbed_known_findings'] or v['violations']:
+            rep.note(f'  {k}: runs={v["runs"]} absorbed={v["absorbed_known_findings"]} '
+                     f'({v["absorbed_fraction"]:.2%}) violations={v["violations"]}')
 
 
 N_QUICK, N_THOROUGH = 40, 400
@@ -813,7 +1028,7 @@ def main(argv):
 def run_check(argv, tier, par, log):
     return C.standard_check(
         'C02', argv,
-        gen_scripts=['gen_c15.py', 'gen_c06.py'],      # Props/C02 imports Props/C01 (InBox / InNormalCone / Certified)
+        gen_scripts=['gen_c15.py', 'gen_c06.py', 'gen_c05.py'],   # Props/C02 imports Props/C01 and the PANOC loop example (Gen C05, C06, C15)
         modules=['Alpaqa.Props.C02'], driver=None, extra_drivers=['drv_c02'],
         extra_sources=['Alpaqa/Model/C02.lean', 'Alpaqa/Proofs/C02.lean', 'Driver/C02.lean'],
         harness_name='c02run', harness_sources=[], harness_builder=lambda: (par, log),
@@ -834,11 +1049,14 @@ def run_check(argv, tier, par, log):
         rule='seeded strongly convex QPs Q_s = μI + BᵀB (cond ≤ 1e3 certified), n ≤ 12, m ≤ 8, equality / range / '
              'one-sided / free rows, finite / infinite / equal variable bounds, strictly feasible witness, '
              'planted (weakly active = degenerate, LICQ may fail) and natural active sets, infeasible and far '
-             'starting points; all ten ALM stacks and all ten inner solvers stand-alone (m = 0, box / '
-             'unconstrained), default parameters, tolerances 1e-4..1e-8, limits 100 outer / 50 000 inner '
-             '(1 000 000 for the stacks without curvature information); instances = 40 (quick) / 400 (thorough), '
-             'stacks cycled 3 per instance (quick) / all 10 (thorough); non-trivial = Converged after ≥ 1 '
-             'inner iteration; evaluations = solver runs, traces_validated = bounds evaluated',
+             'starting points, 2 of 10 instances with a zero-gradient start (x0 = exact unconstrained minimiser, '
+             'outside the box; all stacks in every tier); 12 stacks under ALM (+ panoc/zerofpr-cnewton when m = 0) '
+             'and 14 inner solvers stand-alone (m = 0, box / unconstrained), default parameters, tolerances '
+             '1e-4..1e-8, limits 100 outer / 50 000 inner (1 000 000 for the stacks without curvature information); '
+             'instances = 40 (quick) / 400 (thorough), stacks cycled 3 per instance (quick) / all (thorough); '
+             'required coverage enforced (every stack, both modes, zero-gradient start); known-finding absorption '
+             'capped per stack; non-trivial = Converged after ≥ 1 inner iteration; evaluations = solver runs, '
+             'traces_validated = bounds evaluated',
     )
 
 
